@@ -46,7 +46,7 @@ def reorder_differential(rng, n):
         if rng.random() < 0.2:
             arr = arr[::-1]
         cases.append(arr)
-    d = os.path.join(WORK, 'c01k')
+    d = os.path.join(WORK, 'c01k.%d' % os.getpid())          # per process: quick and thorough may run at the same time
     os.makedirs(d, exist_ok=True)
     json.dump(cases, open(os.path.join(d, 'cases.json'), 'w'))
     env = dict(os.environ, PYTHONPATH=f"{REPO}:{os.path.join(VERIF, 'harness')}", PYTHONHASHSEED='0')
